@@ -2,9 +2,9 @@
 import itertools
 import re
 
-from analysis import mir, order, tables
+from analysis import mir, order, tables, rel
 from analysis.facts import loc, AnchorError
-from analysis.interp import Interp, Policy, Sym, App, Const, Closure, show
+from analysis.interp import Interp, Policy, Sym, App, Const, Closure, Variant, show
 
 LEVEL = "other"
 TECHNIQUE = "ORDER (sort stability/direction from resolved callee + comparator term), DECIDE (complete decision table of the priority-key closure extracted by abstract interpretation and compared, as a boolean function, with the reference), CONST relations, table flags, iterator-direction agreement"
@@ -25,11 +25,13 @@ TRUSTED = ["rustc MIR construction", "exporter faithfulness", "std: sort_by is s
 
 
 class _KeyPolicy(Policy):
+    """Closures and small crate-local accessors (UnaryOp::len, helper predicates) are inlined."""
     max_depth = 6
     max_paths = 2000
 
     def inline(self, fn, args, interp, path):
-        return False
+        b = interp.callee_body(fn)
+        return b is not None and len(b["blocks"]) <= 12
 
 
 def ordering_functions(fb):
@@ -69,35 +71,122 @@ def reference(a, flat):
     return base and (a["U"] if flat else True)
 
 
+def _base(v):
+    """strip field projections / derefs / clones: (base term, [field names outermost first])"""
+    fields = []
+    while isinstance(v, App) and len(v.args) == 1 and (v.fn.startswith(".") and not v.fn.startswith(".cap:") and v.fn not in (".0",)
+                                                     or v.fn in ("deref", "std::clone::Clone::clone", "std::ops::Deref::deref")):
+        if v.fn.startswith("."):
+            fields.append(v.fn)
+        v = v.args[0]
+    return v, fields
+
+
+def _is_index(v, coll, off):
+    """coll[i + off]"""
+    if not (isinstance(v, App) and v.fn in ("index", "std::ops::Index::index") and len(v.args) == 2):
+        return False
+    c, ix = v.args
+    if not (isinstance(c, Sym) and c.name == coll):
+        return False
+    if off == 0:
+        return isinstance(ix, Sym) and ix.name == "i"
+    if isinstance(ix, App) and ix.fn in ("binop:Add", "std::ops::Add::add") and len(ix.args) == 2:
+        for x, y in (ix.args, ix.args[::-1]):
+            if isinstance(x, Sym) and x.name == "i" and rel.const_int(y) == off:
+                return True
+    return False
+
+
+def _left_scan(v):
+    """`ops[..i].iter().rev().find(pred)` / `ops[..i].iter().rfind(pred)`: the predicate closure, or None"""
+    if not (isinstance(v, App) and len(v.args) == 2 and isinstance(v.args[1], Closure)):
+        return None
+    it = v.args[0]
+    if v.fn == "std::iter::Iterator::find":
+        if not (isinstance(it, App) and it.fn == "std::iter::Iterator::rev" and len(it.args) == 1):
+            return None
+        it = it.args[0]
+    elif v.fn != "std::iter::DoubleEndedIterator::rfind":
+        return None
+    while isinstance(it, App) and it.fn in ("core::slice::<impl [T]>::iter", "std::iter::IntoIterator::into_iter", "deref") and it.args:
+        it = it.args[0]
+    if isinstance(it, App) and it.fn in ("std::ops::Index::index", "index") and len(it.args) == 2 and isinstance(it.args[0], Sym) and it.args[0].name == "ops":
+        r = it.args[1]
+        if isinstance(r, Variant) and r.adt.endswith("RangeTo") and isinstance(r.fields.get("end"), Sym) and r.fields["end"].name == "i":
+            return v.args[1]
+        if isinstance(r, Variant) and r.adt.endswith("ops::Range") and rel.const_int(r.fields.get("start")) == 0 and \
+                isinstance(r.fields.get("end"), Sym) and r.fields["end"].name == "i":
+            return v.args[1]
+    return None
+
+
+def _role(v):
+    """('own'|'left', field) for own.prio / left.prio / own.idx / left.idx ..., or None"""
+    b, fields = _base(rel.canon(v))
+    if not fields:
+        return None
+    if _is_index(b, "ops", 0):
+        return ("own", fields[0])
+    if isinstance(b, App) and b.fn == ".0" and isinstance(b.args[0], App) and b.args[0].fn == "as:Some" and _left_scan(b.args[0].args[0]) is not None:
+        return ("left", fields[0])
+    return None
+
+
 def classify_decision(cond, label, flat):
-    """Map one decision to (atom, bool) or None if unrecognised."""
-    s = show(cond)
-    OPS = r"(?P<ops>\w+)"
-    idx = r"(?:\.bin_op\()?index\(%s, i\)\)?" % OPS
-    m = re.match(r"^discr\((?:\.kind\()?index\((?P<nodes>\w+), i\)\)?\)$", s)
-    if m:
-        return ("NL", label == "Num")
-    m = re.match(r"^discr\((?:\.kind\()?index\((?P<nodes>\w+), binop:Add\(i, 1_usize\)\)\)?\)$", s)
-    if m:
-        return ("NR", label == "Num")
-    if re.match(r"^\.is_commutative\(\.op\(%s\)\)$" % idx, s):
-        return ("C", label is True)
-    if re.match(r"^binop:Eq\(operators::UnaryOp::<T>::len\(\.unary_op\(index\(\w+, i\)\)\), 0_usize\)$", s):
-        return ("U", label is True)
-    if re.match(r"^binop:(Ne|Gt)\(operators::UnaryOp::<T>::len\(\.unary_op\(index\(\w+, i\)\)\), 0_usize\)$", s):
-        return ("U", label is False)
-    FIND = r"std::iter::Iterator::find\(std::iter::Iterator::rev\(core::slice::<impl \[T\]>::iter\(std::ops::Index::index\(\w+, RangeTo\{end: i\}\)\)\), closure<\{closure#\d+\}>\)"
-    if re.match(r"^discr\(%s\)$" % FIND, s):
-        return ("L", label == "Some")
-    left = r"(?:\.bin_op\()?\.0\(as:Some\(%s\)\)\)?" % FIND
-    if re.match(r"^binop:Lt\(\.prio\(\.op\(%s\)\), \.prio\(\.op\(%s\)\)\)$" % (left, idx), s):
-        return ("PLT", label is True)
-    if re.match(r"^binop:Ge\(\.prio\(\.op\(%s\)\), \.prio\(\.op\(%s\)\)\)$" % (left, idx), s):
-        return ("PLT", label is False)
-    if re.match(r"^binop:Eq\(\.idx\(%s\), \.idx\(%s\)\)$" % (left, idx), s):
-        return ("IEQ", label is True)
-    if re.match(r"^binop:Ne\(\.idx\(%s\), \.idx\(%s\)\)$" % (left, idx), s):
-        return ("IEQ", label is False)
+    """Map one decision to (atom, bool), ("ignore", None) for a tautology, or None if unrecognised."""
+    c = rel.canon(cond)
+    if isinstance(c, App) and c.fn == "unop:Not" and len(c.args) == 1 and label in (True, False):
+        return classify_decision(c.args[0], not label, flat)
+    if isinstance(c, App) and c.fn == "discr" and len(c.args) == 1:
+        x = c.args[0]
+        if _left_scan(x) is not None:
+            return ("L", label == "Some")
+        b, fields = _base(x)
+        if fields in ([], [".kind"]):
+            if _is_index(b, "nodes", 0):
+                return ("NL", label == "Num")
+            if _is_index(b, "nodes", 1):
+                return ("NR", label == "Num")
+        return None
+    if label not in (True, False):
+        return None
+    if isinstance(c, App) and c.fn in rel._CMP and len(c.args) == 2:
+        op = rel._CMP[c.fn]
+        if not label:
+            op = rel._NEG[op]
+        x, y = c.args
+        if op in (">", ">="):
+            x, y, op = y, x, {">": "<", ">=": "<="}[op]
+        # length of the operator's own unary composition against zero
+        for u, z, flip in ((x, y, False), (y, x, True)):
+            ub, uf = _base(u.args[0]) if isinstance(u, App) and u.fn.endswith("::len") and len(u.args) == 1 else (None, [])
+            if ub is not None and ".unary_op" in uf and _is_index(ub, "ops", 0) and rel.const_int(z) == 0:
+                if op == "==":
+                    return ("U", True)
+                if op == "!=" or (op == "<" and flip):          # 0 < len
+                    return ("U", False)
+                if op == "<=" and not flip:                      # len <= 0
+                    return ("U", True)
+                return None
+        rx, ry = _role(x), _role(y)
+        if rx and ry and rx[1] == ry[1] == ".prio":
+            if (rx[0], ry[0], op) == ("left", "own", "<"):
+                return ("PLT", True)
+            if (rx[0], ry[0], op) == ("own", "left", "<="):
+                return ("PLT", False)
+            return None
+        if rx and ry and rx[1] == ry[1] == ".idx" and {rx[0], ry[0]} == {"left", "own"} and op in ("==", "!="):
+            return ("IEQ", op == "==")
+        return None
+    if isinstance(c, App) and c.fn.endswith("::is_empty") and len(c.args) == 1:
+        ub, uf = _base(c.args[0])
+        if ".unary_op" in uf and _is_index(ub, "ops", 0):
+            return ("U", label)
+        return None
+    b, fields = _base(c)
+    if fields and fields[0] == ".is_commutative" and _is_index(b, "ops", 0):
+        return ("C", label)
     return None
 
 
@@ -107,9 +196,9 @@ def parse_key_term(t):
         if isinstance(x, App) and (x.fn == "std::ops::Mul::mul" or x.fn == "binop:Mul") and len(x.args) == 2:
             p, s = x.args
             if isinstance(s, Const) and s.bits is not None:
-                return show(p), s.bits
+                return p, s.bits
             if isinstance(p, Const) and p.bits is not None:
-                return show(s), p.bits
+                return s, p.bits
         return None
     m = mul(t)
     if m:
@@ -152,12 +241,14 @@ def check_ordering_function(chk, fb, fbody, sorts):
                 chk.violation("R01.1", "direction:%s" % key, "%s sorts ascending in the priority key: lower priorities would be applied first" % name, loc(t["span"]))
             m = re.match(r"^call:(.*)\(_\)$", c["key"])
             kpath = m.group(1) if m else None
+            if kpath is None or kpath not in closures:
+                chk.unrecognised("R01.2", "key:%s" % key, "key function of the comparator is not a local closure: %s" % c["key"][:80], loc(t["span"]))
+                continue
+            reverse_wrapped = False
         else:
-            chk.unrecognised("R01.1", "comparator:%s" % key, "sort method %s is outside the accepted idioms (sort_by with a two-sided comparator)" % meth, loc(t["span"]))
-            continue
-        if kpath is None or kpath not in closures:
-            chk.unrecognised("R01.2", "key:%s" % key, "key function of the comparator is not a local closure: %s" % c["key"][:80], loc(t["span"]))
-            continue
+            # sort_by_key / sort_by_cached_key: ascending in the key the closure returns; descending iff wrapped in Reverse
+            kpath = comp.path
+            reverse_wrapped = True
         kval = closures[kpath]
         kbody = fb.bodies[kpath]
         ps = Interp(fb, _KeyPolicy()).run(kbody, [kval, Sym("i")])
@@ -166,6 +257,18 @@ def check_ordering_function(chk, fb, fbody, sorts):
             chk.unrecognised("R01.2", "key:%s" % key, "key closure shape not recognised: %s" % [(p.status, p.note) for p in bad][:2], loc(kbody["span"]))
             continue
         ps = [p for p in ps if p.status == "return"]
+        if reverse_wrapped:
+            unwrapped, asc = [], False
+            for p in ps:
+                r = p.result
+                if isinstance(r, Variant) and r.adt.endswith("cmp::Reverse") and "0" in r.fields:
+                    p.result = r.fields["0"]
+                else:
+                    asc = True
+            if asc:
+                chk.violation("R01.1", "direction:%s" % key, "%s sorts ascending in the priority key (%s without Reverse): lower priorities would be applied first" % (name, meth), loc(t["span"]))
+                continue
+            chk.ok("R01.1", "%s: %s(Reverse(key)) is descending in the key" % (name, meth), "", loc(t["span"]))
         # ---- R01.2 shape prio*S+b
         S = set()
         P = set()
@@ -183,16 +286,16 @@ def check_ordering_function(chk, fb, fbody, sorts):
         if not shape_ok:
             continue
         if len(S) != 1 or len(P) != 1:
-            chk.violation("R01.2", "key-consistency:%s" % key, "key uses different scales/priorities on different paths: S=%s P=%s" % (sorted(S), sorted(P)), loc(kbody["span"]))
+            chk.violation("R01.2", "key-consistency:%s" % key, "key uses different scales/priorities on different paths: S=%s P=%s" % (sorted(S), sorted(show(x) for x in P)), loc(kbody["span"]))
             continue
         s = next(iter(S))
         pr = next(iter(P))
-        if not re.match(r"^\.prio\(\.op\((\.bin_op\()?index\(ops, i\)\)?\)\)$", pr):
-            chk.violation("R01.2", "key-prio:%s" % key, "key is not built from the priority of the operator itself: %s" % pr, loc(kbody["span"]))
+        if _role(pr) != ("own", ".prio"):
+            chk.violation("R01.2", "key-prio:%s" % key, "key is not built from the priority of the operator itself: %s" % show(pr), loc(kbody["span"]))
         bumps = sorted({b for _, b in rows})
         if s > 0 and all(0 <= b < s for b in bumps):
             chk.ok("R01.2", "%s: key = prio*%d + b, b in %s" % (name, s, bumps), "", loc(kbody["span"]))
-            chk.sample({"fn": fbody["path"], "key": "%s*%d+b" % (pr, s), "bumps": bumps})
+            chk.sample({"fn": fbody["path"], "key": "%s*%d+b" % (show(pr), s), "bumps": bumps})
         else:
             chk.violation("R01.2", "bump-bound:%s" % key, "bump %s is not inside [0, %d): a bumped operator can overtake the next priority level" % (bumps, s), loc(kbody["span"]))
         # ---- R01.3 / R01.4 decision table
@@ -207,7 +310,11 @@ def check_ordering_function(chk, fb, fbody, sorts):
                     chk.unrecognised("R01.3", "table:%s" % key, "bump decision depends on an unrecognised condition: %s = %s" % (show(d[1])[:140], d[2]), loc(d[3]))
                     table_ok = False
                     break
+                if c[0] in assign and assign[c[0]] != c[1]:
+                    assign["_infeasible"] = True
                 assign[c[0]] = c[1]
+            if assign.pop("_infeasible", False):
+                continue
             if not table_ok:
                 break
             free = [a for a in ATOMS if a not in assign]
@@ -251,8 +358,7 @@ def check_ordering_function(chk, fb, fbody, sorts):
                     pps = Interp(fb, _KeyPolicy()).run(pb, [sub, Sym("cand")])
                     if len(pps) == 1 and pps[0].status == "return":
                         r = show(pps[0].result)
-                        if re.match(r"^binop:Le\(\.prio\(\.op\((\.bin_op\()?cand\)?\)\), \.prio\(\.op\((\.bin_op\()?index\(ops, i\)\)?\)\)\)$", r) or \
-                                re.match(r"^binop:Ge\(\.prio\(\.op\((\.bin_op\()?index\(ops, i\)\)?\)\), \.prio\(\.op\((\.bin_op\()?cand\)?\)\)\)$", r):
+                        if _scan_predicate_ok(pps[0].result):
                             pred_ok = True if pred_ok is None else pred_ok
                         else:
                             pred_ok = False
@@ -264,6 +370,21 @@ def check_ordering_function(chk, fb, fbody, sorts):
             chk.ok("R01.3", "%s: left scan stops at the first operator with priority <= own" % name, "", loc(kbody["span"]))
         elif pred_ok is None and not mism and table_ok:
             chk.unrecognised("R01.3", "left-scan:%s" % key, "no left-scan predicate found", loc(kbody["span"]))
+
+
+def _scan_predicate_ok(v):
+    """cand.prio <= own.prio (any spelling)"""
+    c = rel.canon(v)
+    if not (isinstance(c, App) and c.fn in rel._CMP and len(c.args) == 2):
+        return False
+    op = rel._CMP[c.fn]
+    x, y = c.args
+    if op in (">", ">="):
+        x, y, op = y, x, {">": "<", ">=": "<="}[op]
+    if op != "<=":
+        return False
+    bx, fx = _base(x)
+    return isinstance(bx, Sym) and bx.name == "cand" and fx[:1] == [".prio"] and _role(y) == ("own", ".prio")
 
 
 def _closures_in(v, out=None, depth=0):
